@@ -247,6 +247,15 @@ def h_json_trims(cx, fs, kind):
     r = ex.import_json(fs.path('trimmed.json'))[0]
     same_shape(cx, 'surface', s, r)
     cx.check('trim_count', len(r.trims) == len(trims), 'imported %d trims' % len(r.trims))
+    # a second import in the same process (and a container of two trimmed surfaces) must give the same result
+    r2 = ex.import_json(fs.path('trimmed.json'))[0]
+    cx.check('second_import.trim_count', len(r2.trims) == len(trims), 'second import has %d trims' % len(r2.trims))
+    both = _container([s, shapes.clone(s)])
+    ex.export_json(both, fs.path('two.json'))
+    rr = ex.import_json(fs.path('two.json'))
+    cx.check('container.count', len(rr) == 2)
+    for k, x in enumerate(rr):
+        cx.check('container.trim_count[%d]' % k, len(x.trims) == len(trims), 'surface %d has %d trims' % (k, len(x.trims)))
     for i, (ta, tb) in enumerate(zip(trims, r.trims)):
         cx.check('trim%d.type' % i, ta.type == tb.type, '%s vs %s' % (ta.type, tb.type))
         if ta.type == 'spline':
